@@ -40,7 +40,7 @@ def _dump(g, names):
 def impl(c):
     from chipfiring import CFGraph
     n = c["n"]; names = sorted(common.NAME_STYLES[c["style"]](n)); ext = common.FreshNames(names + ["zz_unknown%d" % i for i in range(4)])
-    g = CFGraph(set(names), []); out = []
+    g = CFGraph(set(names), []); out = []; kept = []
     for op in c["ops"]:
         res = "ok"; extra = None
         try:
@@ -48,8 +48,17 @@ def impl(c):
             elif op[0] == 1: g.add_edges([(ext[a], ext[b], k) for a, b, k in op[1]])
             else:
                 h = g.remove_vertex(ext[op[1]]); rest = [x for i, x in enumerate(names) if i != op[1]]; extra = _dump(h, rest)
+                if len(kept) < 4: kept.append((h, rest, extra))
         except ValueError: res = "err"
-        out.append({"res": res, "st": _dump(g, names), "removed": extra})
+        # graphs returned by earlier remove_vertex calls are objects of their own: later changes of g must not reach them
+        out.append({"res": res, "st": _dump(g, names), "removed": extra, "kept_ok": all(_dump(h, rest) == dmp for h, rest, dmp in kept)})
+    # ... and changes of a returned graph must not reach g
+    if out:
+        before = _dump(g, names)
+        for h, rest, _ in kept:
+            for a in range(len(rest)):
+                for b in range(a + 1, len(rest)): h.add_edge(rest[a], rest[b], 1 + a)
+        out[-1]["g_unmoved"] = _dump(g, names) == before
     return out
 def model_lines(c):
     toks = ["ghist", c["n"], len(c["ops"])]
@@ -73,6 +82,8 @@ def judge(c, r, mo):
         for k in ("adj", "val", "tot", "genus"):
             if ir["st"][k] != ms[k]: return [{"what": "after op #%d %s: %s is %s, model has %s" % (i, c["ops"][i], k, ir["st"][k], ms[k])}]
         if not ir["st"]["keys_ok"] or not ir["st"]["types_ok"]: return [{"what": "after op #%d: vertex set / entry types changed" % i}]
+        if not ir.get("kept_ok", True): return [{"what": "after op #%d %s on the graph: a graph returned earlier by remove_vertex changed with it (shared storage)" % (i, c["ops"][i])}]
+        if not ir.get("g_unmoved", True): return [{"what": "adding edges to the graphs returned by remove_vertex changed the original graph (shared storage)"}]
         if removed is not None and ir["removed"] is not None:
             for k in ("adj", "val", "tot", "genus"):
                 if ir["removed"][k] != removed[k]: return [{"what": "remove_vertex at op #%d: %s is %s, induced multigraph has %s" % (i, k, ir["removed"][k], removed[k])}]
@@ -83,6 +94,7 @@ def oracle(c, r):
     n = c["n"]; M = [[0] * n for _ in range(n)]
     def valid(a, b, k): return a != b and k > 0 and a < n and b < n
     for i, (op, ir) in enumerate(zip(c["ops"], r["ok"])):
+        if not ir.get("kept_ok", True) or not ir.get("g_unmoved", True): return {"violates": True, "why": "a graph returned by remove_vertex shares storage with the original (op #%d)" % i}
         exp = "ok"
         if op[0] == 0:
             if valid(*op[1:]): M[op[1]][op[2]] += op[3]; M[op[2]][op[1]] += op[3]
